@@ -222,6 +222,11 @@ func handle(st *state, f []string) string {
 		if st.closed {
 			return `{"kind":"ok","closed":true}`
 		}
+		if f[0] == "sendclose" {
+			// the receiving direction goes first: from here on every write of the peer fails, whenever it is scheduled; what is sent
+			// now can still be read by it
+			syscall.Shutdown(st.fd, syscall.SHUT_RD)
+		}
 		err = syscall.Sendmsg(st.fd, out, nil, nil, 0)
 		if f[0] == "sendclose" {
 			st.closed = true
@@ -230,6 +235,16 @@ func handle(st *state, f []string) string {
 		st.logf(`{"dir":"dl","j":%d,"t":%.3f,"bytes":%s,"err":%t}`, j, time.Since(st.t0).Seconds(), jsonInts(out), err != nil)
 		if f[0] == "sendclose" {
 			st.logf(`{"dir":"close","j":%d,"t":%.3f,"after":true}`, j, time.Since(st.t0).Seconds())
+		}
+		return `{"kind":"ok"}`
+	case "shutrd":
+		// the receiving direction of the association is shut down ahead of a close that follows in the same batch of downlink messages:
+		// the peer's writes fail from now on (EPIPE), the messages still to be sent in this batch can be read by it
+		st.mu.Lock()
+		defer st.mu.Unlock()
+		if !st.closed {
+			syscall.Shutdown(st.fd, syscall.SHUT_RD)
+			st.logf(`{"dir":"shutrd","t":%.3f}`, time.Since(st.t0).Seconds())
 		}
 		return `{"kind":"ok"}`
 	case "close":
